@@ -735,17 +735,22 @@ def enum_c(e):
     return s
 
 
-def enum_drv(e):
+def fixed_signed(fixed, tg):
+    """plain `char` is unsigned on aarch64 and riscv64 (targ.c: signedchar)"""
+    return fixed[2] if fixed[0] != "char" else tg == "x86_64-sysv"
+
+
+def enum_drv(e, tg="x86_64-sysv"):
     eid, fixed, items = e
-    f = "-" if fixed is None else "%d%s" % (fixed[1], "s" if fixed[2] else "u")
+    f = "-" if fixed is None else "%d%s" % (fixed[1], "s" if fixed_signed(fixed, tg) else "u")
     its = " ".join("-" if it is None else "%d:%d%s" % (it[1], it[2], "s" if it[3] else "u") for it in items)
     return "%s %s" % (f, its)
 
 
-def enum_first_implicit_unsigned_fixed(e):
+def enum_first_implicit_unsigned_fixed(e, tg):
     """predicate of finding enum-fixed-unsigned-first-implicit"""
     eid, fixed, items = e
-    return fixed is not None and not fixed[2] and items and items[0] is None
+    return fixed is not None and not fixed_signed(fixed, tg) and items and items[0] is None
 
 
 def run_enums(ck, cproc, n):
@@ -758,8 +763,9 @@ def run_enums(ck, cproc, n):
     enums = wit + enums
     lines = []
     for e in enums:
-        lines.append("enum " + enum_drv(e))
-        lines.append("specenum " + enum_drv(e))
+        for tg in TARGETS:
+            lines.append("enum " + enum_drv(e, tg))
+            lines.append("specenum " + enum_drv(e, tg))
     out = ck.run_drv("\n".join(lines) + "\n")
     d = os.path.join(ck.scratch(), "enum")
     os.makedirs(d, exist_ok=True)
@@ -767,7 +773,7 @@ def run_enums(ck, cproc, n):
     stats = {"enums": 0, "accepted": 0, "rejected": 0, "oracle_checked": 0, "oracle_skipped": 0}
 
     def observe(cmd, e, asm):
-        p = os.path.join(d, "e%d.c" % e[0])
+        p = os.path.join(d, "e%d-%s-%s.c" % (e[0], os.path.basename(cmd[0]), cmd[2] if len(cmd) == 3 else ""))
         open(p, "w").write(enum_c(e))
         rc, o, err = run_tool(cmd, p)
         if rc != 0:
@@ -782,21 +788,24 @@ def run_enums(ck, cproc, n):
             return ("unparsed", o[-200:])
         return ("ok", "%d%s" % (vals[0], "s" if vals[1] else "u"), vals[2])
 
+    with concurrent.futures.ThreadPoolExecutor(common.NPROC) as ex:
+        cobs = list(ex.map(lambda a: observe([cproc, "-t", a[1]], a[0], False), [(e, tg) for e in enums for tg in TARGETS]))
     for i, e in enumerate(enums):
-        m, s = out[2 * i], out[2 * i + 1]
         stats["enums"] += 1
-        hk = "%s/%s" % ("fixed" if e[1] else "plain", s)
-        hist[hk] = hist.get(hk, 0) + 1
         ck.count(("enum", enum_drv(e)))
-        for tg in TARGETS:
-            c = observe([cproc, "-t", tg], e, False)
+        for ti, tg in enumerate(TARGETS):
+            m, s = out[6 * i + 2 * ti], out[6 * i + 2 * ti + 1]
+            if ti == 0:
+                hk = "%s/%s" % ("fixed" if e[1] else "plain", s)
+                hist[hk] = hist.get(hk, 0) + 1
+            c = cobs[3 * i + ti]
             cs = "ok " + c[1] if c[0] == "ok" else ("error" if c[0] == "rejected" else c[0])
             ss = s if s.startswith("ok") else "error"
             ms = m if m.startswith("ok") else "error"
             replay = {"kind": "enum", "target": tg, "program": enum_c(e), "cproc": c, "model": m, "spec": s}
             if cs != ss:
                 # the code's own output fails the spec
-                if enum_first_implicit_unsigned_fixed(e) and cs == "error" and ms == "error":
+                if enum_first_implicit_unsigned_fixed(e, tg) and cs == "error" and ms == "error":
                     finding(ck, FID_ENUM0, dict(replay, what="enum with a fixed unsigned underlying type whose first "
                                                 "enumerator has no '=' is rejected"))
                 else:
@@ -814,6 +823,7 @@ def run_enums(ck, cproc, n):
             stats["accepted" if c[0] == "ok" else "rejected"] += 1
         # spec validation (clang for all targets is identical here; gcc 12 has no fixed enums and
         # rejects an implicit enumerator that overflows the previous one's type)
+        s = out[6 * i + 1]        # x86-64 (gcc and clang run for the host triple)
         if i < 400 or not ck.quick:
             g = observe(["gcc", "-w", "-S", "-o", "-"], e, True) if e[1] is None else ("n/a",)
             cl = observe(["clang", "-w", "-S", "-o", "-"], e, True)
